@@ -1038,6 +1038,19 @@ func init() {
 		return math.FMA(a[0].(float64), a[1].(float64), a[2].(float64)), true
 	}
 
+	// (s1.Angle).E7 on Angle(i)*s1.E7 with symbolic i: see floatint.go
+	intrinsics["(github.com/golang/geo/s1.Angle).E7"] = func(in *Interp, c *frame, fn *ssa.Function, a []value) (value, bool) {
+		f, ok := a[0].(intFloat)
+		if !ok {
+			return nil, false
+		}
+		e7 := math.Pi / 180 / 1e7 // == float64(s1.E7)
+		if f.chain != "*"+fmtFloatBits(1e-7*(math.Pi/180)) && f.chain != "*"+fmtFloatBits(e7) {
+			panic(unsupported{"Angle.E7 on a symbolic float that is not Angle(int)*s1.E7"})
+		}
+		in.stats.stubsUsed["(s1.Angle).E7 inverts Angle(int32)*s1.E7 exactly"]++
+		return fromTerm(mkExtract(31, 0, f.t)), true
+	}
 	intrinsics["time.Now"] = func(in *Interp, c *frame, fn *ssa.Function, a []value) (value, bool) {
 		return zero(fn.Signature.Results().At(0).Type()), true
 	}
